@@ -214,6 +214,40 @@ def oracles(ctx, deep):
             want = {(x, y) for x in range(rows) for y in range(cols) if (x - cx) ** 2 + (y - cy) ** 2 < r0 * r0}
             if bad or pts != want:
                 add(Violation("acs-disc", "%s (%s, %dx%d, fraction %s): ACS is not the disc of radius %d around the centre sample (%d,%d), point-symmetric about it" % (name, mode, rows, cols, cf, r0, cx, cy), {"config": cfg, "asymmetric": bad[:5], "missing": sorted(want - pts)[:5], "extra": sorted(pts - want)[:5]}, {"generator": name, "kind": "acs-disc"}))
+    # offset-equispaced masks: the ACS is capped by the sampling budget round(width / R), also where the request exceeds
+    # it (there the sampling-mask call itself has no room for offsets and may raise; the ACS call still answers)
+    for t in range(ctx.n(30, 200)):
+        name = rng.choice(["FastMRIMagic", "CartesianMagic"])
+        mode = rng.choice(["static", "dynamic", "multislice"])
+        cols, rows = rng.randint(12, 80), rng.randint(4, 12)
+        accel = rng.choice([3, 4, 6, 8])
+        budget = int(round(cols / accel))
+        want0 = rng.randint(max(budget, 2), min(cols - 1, 3 * budget + 2))
+        cf = want0 if name.startswith("Cartesian") else rng.choice([0.3, 0.4, 0.55, 0.7])
+        if not name.startswith("Cartesian") and abs(cols * cf - math.floor(cols * cf) - 0.5) < 1e-6:
+            continue
+        L = max(min(G.num_low(name, cols, cf), budget), 1)
+        shape = ([rng.randint(1, 3)] if mode != "static" else []) + [rows, cols, 2]
+        seed = rng.randrange(10**6)
+        cfg = {"generator": name, "mode": mode, "shape": shape, "acceleration": accel, "center_fraction": cf, "seed": seed, "budget": budget}
+        runs += 1
+        try:
+            mf = G.build(name, accel, cf, mode)
+        except Exception:  # noqa
+            continue
+        a = G.call(mf, shape, seed, True, seconds=8)
+        if a[0] != "ok":
+            continue
+        frames, const = _line_cols(a[1])
+        centre = cols // 2
+        for fi, colsel in enumerate(frames):
+            okc = bool(colsel) and len(colsel) == L and colsel == list(range(colsel[0], colsel[0] + L))
+            if not okc or not const[fi] or not (colsel[0] <= centre <= colsel[-1]) or abs((centre - colsel[0]) - (colsel[-1] - centre)) > 1:
+                add(Violation("acs-lines", "%s (%s, width %d, R=%s, request %s): ACS columns of frame %d are %s, expected %d contiguous columns (request capped by the budget %d) around column %d" % (name, mode, cols, accel, cf, fi, colsel, L, budget, centre), {"config": cfg, "frame": fi, "observed": colsel, "expected_count": L}, {"generator": name, "kind": "acs-lines-capped"}))
+                break
+        r = G.call(mf, shape, seed, False, seconds=8)
+        if r[0] == "ok" and bool((a[1] & ~r[1]).any()):
+            add(Violation("acs-subset", "%s (%s): the ACS mask is not contained in the sampling mask produced with the same arguments" % (name, mode), {"config": cfg}, {"generator": name, "kind": "acs-subset"}))
     # the centre disc itself, also for grids of clinical size (640 x 368 and the like)
     import numpy as np
     from direct.common.subsample import centered_disk_mask
